@@ -717,9 +717,11 @@ pub fn gen_lines(d: &Decl, rng: &mut Rng, n: usize) -> Vec<(String, &'static str
             5 => {
                 // surplus value / unknown option somewhere
                 let mut t = toks.clone();
-                let junk = rng.pick(&["extra", "--nope", "-Z", "-é", "--", "", "-"]).to_string();
-                let at = rng.range(1, t.len());
-                t.insert(at, junk);
+                for _ in 0..rng.range(1, 3) {
+                    let junk = rng.pick(&["extra", "--nope", "-Z", "-é", "--", "", "-", "--dry-run", "--nocache"]).to_string();
+                    let at = rng.range(1, t.len());
+                    t.insert(at, junk);
+                }
                 out.push((render_tokens(&t, rng), "inserted-token"));
             }
             6 => {
@@ -737,10 +739,10 @@ pub fn gen_lines(d: &Decl, rng: &mut Rng, n: usize) -> Vec<(String, &'static str
                 out.push((render_tokens(&t, rng), "unknown-command"));
             }
             8 => {
-                // only the command name, or the name with a single argument
+                // only the command name, or the name with up to three arbitrary tokens
                 let mut t = vec![v.name.clone()];
-                if rng.chance(50) {
-                    t.push(rng.pick(&["x", "--nope", "1", "-q", "zz9"]).to_string());
+                for _ in 0..rng.below(4) {
+                    t.push(rng.pick(&["x", "--nope", "1", "-q", "zz9", "--", "", "-", "-- ", "now", "-é"]).trim_end().to_string());
                 }
                 out.push((render_tokens(&t, rng), "bare-name"));
             }
